@@ -29,12 +29,16 @@ theorem fresh_after_cpDel (g : G) (s x : Nat) (dp : Bool) (h : List Nat)
     apply hnot
     simp [cpDel, hfam, mem_dedup]
 
-/-- **`disconnect_interface`: the handle used reports what a fresh lookup reports.** -/
-theorem disconnect_fresh (g : G) (h : List Nat) (s i : Nat) (g' : G) (h' : List Nat)
+theorem hIds_hDrop (h : List IfH) (p : Nat) : hIds (hDrop h p) = (hIds h).filter (fun z => z != p) := by
+  simp only [hIds, hDrop, List.filter_map]; rfl
+
+/-- **`disconnect_interface`: the handle used reports what a fresh lookup reports** — about node ids; the names in the
+list play no role, in particular they need not be distinct. -/
+theorem disconnect_fresh (g : G) (h : List IfH) (s i : Nat) (g' : G) (h' : List IfH)
     (hrun : disconnect g h i = .ok (g', h'))
     (hshape : ∀ p ∈ spPeers g i, g.nbrs p .connects .cp = [] ∧ (cpDel g p true).contains s = false)
-    (hh : ∀ y, y ∈ h ↔ y ∈ freshIfs g s) :
-    ∀ y, y ∈ h' ↔ y ∈ freshIfs g' s := by
+    (hh : ∀ y, y ∈ hIds h ↔ y ∈ freshIfs g s) :
+    ∀ y, y ∈ hIds h' ↔ y ∈ freshIfs g' s := by
   obtain ⟨r, hr, heq⟩ := map_ok hrun
   simp only [Prod.mk.injEq] at heq
   obtain ⟨rfl, rfl⟩ := heq
@@ -53,7 +57,8 @@ theorem disconnect_fresh (g : G) (h : List Nat) (s i : Nat) (g' : G) (h' : List 
         exact mem_nbrs_has _ _ _ _ _ hp'.1
       rw [removeCp_minus g p true hpres] at hg1
       cases hg1
-      exact fresh_after_cpDel g s p true h (by simp [cpFamily, hp.1]) hp.2 hh
+      rw [hIds_hDrop]
+      exact fresh_after_cpDel g s p true (hIds h) (by simp [cpFamily, hp.1]) hp.2 hh
     · cases hr
   · cases hr
 
@@ -73,19 +78,19 @@ theorem fresh_after_minus (g : G) (s c : Nat) (D h : List Nat) (hs : D.contains 
 /-- what `remove_child_interface(c)` deletes: the port and link of a connected child, then the child with its link -/
 def childDel (g : G) (c : Nat) : List Nat := (deepIfs g [c]).flatMap (discDel g) ++ cpDel g c false
 
-theorem removeChild_closed (g : G) (h : List Nat) (p c : Nat) (hk : g.kind? p = some kDedicatedPort) (hc : g.has c = true)
+theorem removeChild_closed (g : G) (h : List IfH) (p c : Nat) (hk : g.kind? p = some kDedicatedPort) (hc : g.has c = true)
     (h1 : SepDiscSeq g [] (deepIfs g [c]) = true) (h2 : Sep g ((deepIfs g [c]).flatMap (discDel g)) c false = true) :
-    removeChild g h p c = .ok (g.minus (childDel g c), h.filter (fun x => x != c)) := by
+    removeChild g h p c = .ok (g.minus (childDel g c), hDrop h c) := by
   simp only [removeChild, hk, beq_self_eq_true, ite_true, disconnectDeep_after g _ h1, bind, Except.bind,
     removeCp_after g _ c false hc h2, Except.map, childDel]
 
 /-- **`remove_child_interface`: the parent handle reports what a fresh lookup reports** (after the repairs). -/
-theorem removeChild_fresh (g : G) (h : List Nat) (p c : Nat) (hk : g.kind? p = some kDedicatedPort) (hc : g.has c = true)
+theorem removeChild_fresh (g : G) (h : List IfH) (p c : Nat) (hk : g.kind? p = some kDedicatedPort) (hc : g.has c = true)
     (h1 : SepDiscSeq g [] (deepIfs g [c]) = true) (h2 : Sep g ((deepIfs g [c]).flatMap (discDel g)) c false = true)
     (hp : (childDel g c).contains p = false) (hD : ∀ y ∈ freshIfs g p, y ∈ childDel g c ↔ y = c)
-    (hh : ∀ y, y ∈ h ↔ y ∈ freshIfs g p) :
-    ∃ g' h', removeChild g h p c = .ok (g', h') ∧ ∀ y, y ∈ h' ↔ y ∈ freshIfs g' p :=
-  ⟨_, _, removeChild_closed g h p c hk hc h1 h2, fresh_after_minus g p c _ h hp hD hh⟩
+    (hh : ∀ y, y ∈ hIds h ↔ y ∈ freshIfs g p) :
+    ∃ g' h', removeChild g h p c = .ok (g', h') ∧ ∀ y, y ∈ hIds h' ↔ y ∈ freshIfs g' p :=
+  ⟨_, _, removeChild_closed g h p c hk hc h1 h2, by rw [hIds_hDrop]; exact fresh_after_minus g p c _ (hIds h) hp hD hh⟩
 
 theorem filter_ne_of_not_mem (h : List Nat) (p : Nat) (hp : p ∉ h) : ∀ y, y ∈ h.filter (fun z => z != p) ↔ y ∈ h := by
   intro y
@@ -96,16 +101,16 @@ theorem filter_ne_of_not_mem (h : List Nat) (p : Nat) (hp : p ∉ h) : ∀ y, y 
 
 /-- **`unpeer`: both handles report what fresh lookups report** (after the repairs). `i`/`p` are the two ServicePorts found;
 the shape hypotheses say they are plain ports of their own service. -/
-theorem unpeer_fresh (g : G) (ha hb : List Nat) (a b i p : Nat) (g' : G) (ha' hb' : List Nat)
+theorem unpeer_fresh (g : G) (ha hb : List IfH) (a b i p : Nat) (g' : G) (ha' hb' : List IfH)
     (hfind : findPeering g ha hb = some (i, p))
     (hrun : unpeer g ha hb = .ok (g', ha', hb'))
     (hi : cpFamily g i true = [i]) (hpf : cpFamily (g.minus (cpDel g i true)) p true = [p])
     (hsa : (cpDel g i true).contains a = false) (hsb : (cpDel g i true).contains b = false)
     (hsa2 : (cpDel (g.minus (cpDel g i true)) p true).contains a = false)
     (hsb2 : (cpDel (g.minus (cpDel g i true)) p true).contains b = false)
-    (hpa : p ∉ ha) (hib : i ∉ hb)
-    (hha : ∀ y, y ∈ ha ↔ y ∈ freshIfs g a) (hhb : ∀ y, y ∈ hb ↔ y ∈ freshIfs g b) :
-    (∀ y, y ∈ ha' ↔ y ∈ freshIfs g' a) ∧ (∀ y, y ∈ hb' ↔ y ∈ freshIfs g' b) := by
+    (hpa : p ∉ hIds ha) (hib : i ∉ hIds hb)
+    (hha : ∀ y, y ∈ hIds ha ↔ y ∈ freshIfs g a) (hhb : ∀ y, y ∈ hIds hb ↔ y ∈ freshIfs g b) :
+    (∀ y, y ∈ hIds ha' ↔ y ∈ freshIfs g' a) ∧ (∀ y, y ∈ hIds hb' ↔ y ∈ freshIfs g' b) := by
   unfold unpeer at hrun
   rw [hfind] at hrun
   obtain ⟨g1, h1, hrun⟩ := bind_ok hrun
@@ -125,15 +130,16 @@ theorem unpeer_fresh (g : G) (ha hb : List Nat) (a b i p : Nat) (g' : G) (ha' hb
   rw [removeCp_minus _ p true hpg] at h2
   cases h2
   constructor
-  · have s1 := fresh_after_cpDel g a i true ha hi hsa hha
+  · have s1 := fresh_after_cpDel g a i true (hIds ha) hi hsa hha
     have s2 := fresh_after_cpDel _ a p true _ hpf hsa2 s1
     intro y
-    rw [← s2 y]
-    have hp' : p ∉ ha.filter (fun z => z != i) := fun h => hpa (List.mem_filter.mp h).1
+    rw [hIds_hDrop, ← s2 y]
+    have hp' : p ∉ (hIds ha).filter (fun z => z != i) := fun h => hpa (List.mem_filter.mp h).1
     exact (filter_ne_of_not_mem _ p hp' y).symm
-  · have s1 := fresh_after_cpDel g b i true hb hi hsb hhb
-    have s1' : ∀ y, y ∈ hb ↔ y ∈ freshIfs (g.minus (cpDel g i true)) b := by
-      intro y; rw [← s1 y]; exact (filter_ne_of_not_mem hb i hib y).symm
-    exact fresh_after_cpDel _ b p true hb hpf hsb2 s1'
+  · have s1 := fresh_after_cpDel g b i true (hIds hb) hi hsb hhb
+    have s1' : ∀ y, y ∈ hIds hb ↔ y ∈ freshIfs (g.minus (cpDel g i true)) b := by
+      intro y; rw [← s1 y]; exact (filter_ne_of_not_mem (hIds hb) i hib y).symm
+    rw [hIds_hDrop]
+    exact fresh_after_cpDel _ b p true (hIds hb) hpf hsb2 s1'
 
 end FimVerif.Remove
